@@ -232,6 +232,14 @@ fn units(run: &Run) -> Vec<Unit> {
         bounded(3, 2, 3);
         bounded(4, 2, 1);
     }
+    // long inputs: item counts around the powers of two a size threshold would sit at (a batch of
+    // tickets per lock, a resized buffer) under the default schedule only (one execution per unit:
+    // the schedule space of the short inputs is explored exhaustively above)
+    for n in tu_verif::enumerate::threshold_lengths(if quick { 8 } else { 10 }) {
+        for w in 1..=3usize {
+            u.push(Unit { mode: "default-schedule", w, n, bound: Some(0), part: None, spin: 0, hint: 0 });
+        }
+    }
     // upstream iterators whose size hint is not exact (every interleaving again for the small cases):
     // the number of items is what the iterator yields, not what it announces
     for hint in 1..HINTS.len() {
@@ -308,6 +316,13 @@ fn main() {
         let deadline = run.deadline();
         let mut ex = ex;
         let mut ck = ck;
+        if u.mode == "default-schedule" {
+            let x = ex(&[]);
+            ck(&x, &[]);
+            run.count_n("default-schedule:executions", 1);
+            per_unit.push(json!({"mode": u.mode, "workers": w, "items": n, "executions": 1, "steps": x.steps.len(), "completed": true}));
+            continue;
+        }
         let stats = match (u.bound, u.part) {
             (None, _) => sched::explore_states(deadline, vec![vec![]], 5_000_000, ex, ck),
             (Some(b), None) => sched::explore_bounded(b, deadline, vec![vec![]], ex, ck),
